@@ -281,9 +281,13 @@ def check_cnf(clauses, viols, cnt):
             fu.samples = list(assigns)
             res = core.quiet(sample_uniform.sample_uniform, len(assigns), cnf, max(vars_), support, [], False, False)
             cnt['transitions'] += len(assigns)
-            if [r.assignment for r in res] != exp:
+            # (the scripted answers are arbitrary assignments; for an unsatisfiable clause set the library may rightly decide
+            # "no samples" itself without consulting the sampler)
+            from vt import sat as _sat
+            satisfiable = bool(_sat.all_models([list(cl) for cl in clauses], limit=1))
+            if [r.assignment for r in res] != exp and not (not satisfiable and res == []):
                 viols.append(core.viol('unigen_output_misparsed', sig, clauses=clauses, support=support, got=[r.assignment for r in res][:4]))
-            elif not fu.calls or ms(fu.calls[0][0]) != want or fu.calls[0][1] != list(range(1, support + 1)):
+            elif (satisfiable or fu.calls) and (not fu.calls or ms(fu.calls[0][0]) != want or fu.calls[0][1] != list(range(1, support + 1))):
                 viols.append(core.viol('unigen_input_differs', sig, clauses=clauses, support=support, got=fu.calls[:1]))
             fc.samples = list(assigns)
             res = core.quiet(sample_uniform.sample_uniform, len(assigns), cnf, max(vars_), support, [], False, True)
